@@ -20,6 +20,8 @@ val compOpp : comparison -> comparison
 
 val add : nat -> nat -> nat
 
+val sub : nat -> nat -> nat
+
 type positive =
 | XI of positive
 | XO of positive
@@ -33,6 +35,11 @@ type z =
 | Z0
 | Zpos of positive
 | Zneg of positive
+
+module Nat :
+ sig
+  val leb : nat -> nat -> bool
+ end
 
 module Pos :
  sig
@@ -156,13 +163,31 @@ module Z :
   val modulo : z -> z -> z
  end
 
+val removelast : 'a1 list -> 'a1 list
+
+val rev : 'a1 list -> 'a1 list
+
 val concat : 'a1 list list -> 'a1 list
 
 val map : ('a1 -> 'a2) -> 'a1 list -> 'a2 list
 
+val existsb : ('a1 -> bool) -> 'a1 list -> bool
+
 val forallb : ('a1 -> bool) -> 'a1 list -> bool
 
+val firstn : nat -> 'a1 list -> 'a1 list
+
+val skipn : nat -> 'a1 list -> 'a1 list
+
 type byte = n
+
+val index_byte : n -> n list -> nat option
+
+val buffer_line_newline : n
+
+val buffer_line_interrupt : n
+
+val buffer_line_cr : n
 
 val escape_leader : n
 
@@ -171,6 +196,78 @@ val escape_base_json : (n list * n list) list
 val escape_all_chars : n list
 
 val escape_all_first_code : n
+
+val nl : byte
+
+val intr : byte
+
+val cr : byte
+
+type pending = byte list list
+
+type rres =
+| Done of byte list * pending
+| Blocked
+| Interrupted of pending
+
+val has_byte : byte -> byte list -> bool
+
+val ends_cr : byte list -> bool
+
+type cres =
+| CLine of byte list * byte list
+| CIntr of byte list
+| CMore of byte list
+
+val in_chunk : nat -> bool -> byte list -> byte list -> cres
+
+val read_line : bool -> byte list -> pending -> rres
+
+val read_binary : nat -> byte list -> pending -> rres
+
+val read_binary_op : z -> pending -> rres
+
+val pop_buffer : pending -> byte list option * pending
+
+val pop_all : nat -> pending -> byte list list
+
+val pop_all_fuel : pending -> nat
+
+type op =
+| OpLine of bool
+| OpBinary of z
+
+type result =
+| RData of byte list
+| RBlocked
+| RInterrupted
+
+val step : op -> pending -> rres
+
+val run_st : op list -> pending -> result list * pending
+
+val run : op list -> pending -> result list
+
+val run_cont : op list -> pending -> result list * pending
+
+val split_at : byte -> byte list -> byte list * byte list option
+
+type fres =
+| FDone of byte list * byte list
+| FBlocked
+| FInterrupted
+
+val ref_line : byte list -> fres
+
+val ref_junk_line : nat -> byte list -> byte list -> fres
+
+val ref_binary : z -> byte list -> fres
+
+val ref_step : op -> byte list -> fres
+
+val ref_run_st : op list -> byte list -> result list * byte list
+
+val ref_run : op list -> byte list -> result list
 
 val leader : byte
 
@@ -192,13 +289,13 @@ val unesc : table -> byte list -> nat -> ures
 
 val unescape_data : table -> byte list -> nat -> ures
 
-type rres =
-| RData of byte list
+type rres0 =
+| RData0 of byte list
 | REof
 | RErr of byte
 
 val er_read :
-  table -> byte list -> byte list list -> nat -> rres * (byte list * byte
+  table -> byte list -> byte list list -> nat -> rres0 * (byte list * byte
   list list)
 
 val next_size : nat list -> nat -> nat * nat list
